@@ -113,7 +113,7 @@ CLAIMED = {
              "det (|det| after the flip), first moments map through L, second moments follow det L . L S L^T, "
              "squared areas scale by s^4, translation changes volume only by cancelling edge terms. Tied to the "
              "code by a differential run over 7 geometry kinds x 8 float64-exact matrix classes with normals "
-             "cached or not (points, counts, connectivity, attached data, inverse, composition, mass properties). Executable rational copies of transformPoint / det / signed volume / first moments (Model/GeomRat.lean) are proved equal to the generic definitions by rfl (C04_rat_model_is_generic) and the driver runs them on the harness's meshes and matrices: transformed vertices, volume and centre of mass of apply_transform are compared with the model, and det * volume is re-checked exactly. C04_identity_shortcut_bound gives the error of the 1e-8 identity shortcut.",
+             "cached or not (points, counts, connectivity, attached data, inverse, composition, mass properties). Executable rational copies of transformPoint / det / signed volume / first moments (Model/GeomRat.lean) are proved equal to the generic definitions by rfl (C04_rat_model_is_generic) and the driver runs them on the harness's meshes and matrices: transformed vertices, volume and centre of mass of apply_transform are compared with the model, and det * volume is re-checked exactly. C04_identity_shortcut_bound gives the error of the 1e-8 identity shortcut. Generated obligation C04_path_transform_keeps_topology_only: which cache keys Path.apply_transform keeps and the order verify / clear / id_set / update, read from the source by ast on every run.",
         note="Trusted: Lean kernel (+propext/Classical.choice/Quot.sound), float64 evaluation on exact matrix "
              "families, C03's moments as the meaning of volume/centre/inertia. Partial: point clouds, paths, "
              "primitives, scenes and voxel grids are covered by the correspondence only ('points move to M.p, "
@@ -158,7 +158,7 @@ CLAIMED = {
              "representative, keeps face order/data and leaves no two kept vertices with one key; append / "
              "concatenate / submesh / split+concatenate (any partition) preserve the triangle list / multiset "
              "with attached data; unique_faces marks first occurrences. All for meshes of any size. Tied to "
-             "the code by a differential run (vertex ids, face ids, positions, colours compared element-wise).",
+             "the code by a differential run (vertex ids, face ids, positions, colours compared element-wise). Generated obligation C07_masking_slices_every_payload: the payloads update_faces / update_vertices slice with the mask, read from the source by ast on every run, are the ones the model carries.",
         note="Trusted: Lean kernel (+propext/Classical.choice/Quot.sound), the Python harness; merge keys are exact "
              "on the generated coordinates; visual classes' caching, nondegenerate_faces (geometric), "
              "remove_infinite_values and process() are checked by the property oracle only. update_vertices with "
@@ -258,14 +258,13 @@ CLAIMED = {
              "Lean formula on the same directions, box vertices / volume against the model, edge pairing "
              "checked independently, analytic volume / area / bounds, section counts 1..40, partial angles "
              "with caps, polygons with holes and every engine, rigid and mirrored placements, sequences of "
-             "primitive parameter edits against a freshly built primitive. Since registration: C15_extrude_closed - the index arithmetic of extrude_triangulation yields a closed, consistently wound surface for EVERY cap triangulation without a repeated directed edge (permutation algebra on directed edges); the real extrude_triangulation is compared face for face with that index model.",
+             "primitive parameter edits against a freshly built primitive. Since registration: C15_extrude_closed - the index arithmetic of extrude_triangulation yields a closed, consistently wound surface for EVERY cap triangulation without a repeated directed edge (permutation algebra on directed edges); the real extrude_triangulation is compared face for face with that index model. Closedness is now proved for every kind of revolve creation.py builds, each for every profile length and section count: C15_revolve_ring_closed (closed profile, annulus), C15_revolve_torus_closed (open loop, torus), C15_revolve_open_closed and C15_revolve_loop_open_closed (partial turn with caps, for EVERY cap triangulation meeting the decidable cap condition capOk / capOkC); the harness requires the kept-triangle pattern, the cap condition and the whole face array of revolve(process=False) to be the model's. Modelling the torus pattern exposed and led to the repair of a genuine defect (capped partial turn of an open loop not watertight, fix d558e7d). Primitive edit histories continue through copies taken straight after an edit.",
         note="Trusted: Lean kernel (+propext/Classical.choice/Quot.sound); polygon triangulation engines judged by "
-             "output. Partial: closedness of partial revolves with caps, closed-profile revolves (annulus, torus) "
-             "and extrusions is certified per explored parameter set (edge pairing computed on the real "
+             "output (the cap condition is evaluated on what they return). Partial: sweeps and extrusions along curved paths are certified per explored parameter set (edge pairing computed on the real "
              "faces), not proved for all counts; area of "
-             "curved shapes and inertia are compared numerically only. Two defects repaired (sections=1 "
-             "IndexError, mirrored placement inverted).",
-        technique="Lean 4 proof (polynomial volume identities, generated tables decided by the kernel) + differential correspondence"),
+             "curved shapes and inertia are compared numerically only. Four defects repaired (sections=1 "
+             "IndexError, mirrored placement inverted, absolute area threshold, capped partial turn of an open loop).",
+        technique="Lean 4 proof (polynomial volume identities, directed-edge multiset algebra for every kind of revolve, generated tables decided by the kernel) + differential correspondence"),
     "C16": dict(
         category="proof", design_ref="DESIGN.md 5 C16",
         text="Lean 4 theorems over exact rationals: soundness of executable checkers that are run on the real "
@@ -334,7 +333,7 @@ CLAIMED = {
              "run (encoded arrays compared element by element, long runs at the dtype limits, list/array, "
              "sorted/unsorted/repeated indices). The lazy Encoding classes/views, the voxel grid index<->point "
              "maps, volume and binvox export/reload are checked against the dense specification by the "
-             "correspondence only (partial). Since registration: the index maps of the lazy views (ravel / unravel for any shape, flip, reshape, transpose) are modelled and proved (C13_ravel_unravel, C13_flip_view, C13_reshape_view, C13_transpose_view_partial + 3-cycle witness) and compared with _to_base_indices / _from_base_indices of the real view classes. Grid addressing (points_to_indices / indices_to_points, np.round ties to even): C13_grid, C13_grid_ties, compared exactly on dyadic grids.",
+             "correspondence only (partial). Since registration: the index maps of the lazy views (ravel / unravel for any shape, flip, reshape, transpose) are modelled and proved (C13_ravel_unravel, C13_flip_view, C13_reshape_view, C13_transpose_view_partial + 3-cycle witness) and compared with _to_base_indices / _from_base_indices of the real view classes. Grid addressing (points_to_indices / indices_to_points, np.round ties to even): C13_grid, C13_grid_ties, compared exactly on dyadic grids. Run-length operations are also run on encoded data held in the narrow count dtype (found and repaired: accumulated counts wrapped, fix bb728e5).",
         note="Trusted: Lean kernel (+propext/Classical.choice/Quot.sound), the Python harness, numpy as the dense "
              "specification. Not proved: the Encoding view classes (the known findings list their broken reads by "
              "(encoding, read, failure kind, view)), VoxelGrid transforms.",
@@ -350,7 +349,7 @@ CLAIMED = {
              "a face negates its area vector and volume contribution. fix_normals / fix_winding / fix_inversion, "
              "fill_holes, subdivide_to_size and subdivide_loop are tied to these statements by the differential "
              "run (all / random re-winding subsets incl. whole bodies of unequal size, every single and double "
-             "face removal, edge bounds around the longest edge). Executable rational copies of children / childFaces (Model/GeomRat.lean) are proved equal to the generic definitions by rfl (C18_rat_model_is_generic), subdivision of any triangle list keeps the signed volume (C18_rat_subdivide_volume), and the driver's children are compared triangle by triangle with Trimesh.subdivide. Since registration: C18_fix_winding (the traversal of repair.fix_winding along any spanning search forest leaves every adjacent pair consistent on an orientable surface, whatever the start faces and order) and the reversed faces of the real fix_winding are compared with the traversal model on every case.",
+             "face removal, edge bounds around the longest edge). Executable rational copies of children / childFaces (Model/GeomRat.lean) are proved equal to the generic definitions by rfl (C18_rat_model_is_generic), subdivision of any triangle list keeps the signed volume (C18_rat_subdivide_volume), and the driver's children are compared triangle by triangle with Trimesh.subdivide. Since registration: C18_fix_winding (the traversal of repair.fix_winding along any spanning search forest leaves every adjacent pair consistent on an orientable surface, whatever the start faces and order) and the reversed faces of the real fix_winding are compared with the traversal model on every case. C18_to_size: subdivide_to_size face by face - no edge above the bound on success, the longest edge halves exactly, success within max_iter passes whenever the longest edge is at most 2^max_iter bounds; a Rat instance is compared with the code (success, face count, longest edge).",
         note="Trusted: Lean kernel (+propext/Classical.choice/Quot.sound), float64 on dyadic inputs. Partial: the "
              "BFS winding repair and hole filling are checked by correspondence only (networkx traversal not "
              "modelled). Known finding: fill_holes on a tetrahedron missing two faces.",
